@@ -30,20 +30,33 @@ CONSTANTS MaxStmts, MaxLeaves, MaxNodes, MaxNames,
           LhsIdxs,    \* offsets a left-hand side may carry
           Nums,       \* numeric literals (strings)
           BinOps, CmpOps, BoolOps, Funcs1, Funcs2,
-          UseNeg, UseParen, UseCond, UseNot
+          UseNeg, UseParen, UseCond, UseNot,
+          NoReject    \* TRUE: only build programs the parser must accept (no kind clash, no second definition)
 
 Named == 1000
 Tok(t, s, n, k) == [t |-> t, s |-> s, n |-> n, k |-> k]
 Var(kind, name, idx) == Tok("var", kind, name, idx)
 
+IsVar(x) == x.t = "var"
+TermsOf(s) == <<s.lhs>> \o SelectSeq(s.rhs, IsVar)         \* left-hand side first, then source order
+RECURSIVE TermsOfStmts(_)
+TermsOfStmts(ss) == IF ss = <<>> THEN <<>> ELSE TermsOf(Head(ss)) \o TermsOfStmts(Tail(ss))
+(* distinct names in order of first appearance *)
+RECURSIVE FirstSeen(_, _)
+FirstSeen(ts, acc) == IF ts = <<>> THEN acc
+                      ELSE FirstSeen(Tail(ts), IF \E i \in 1..Len(acc) : acc[i] = Head(ts).n THEN acc ELSE Append(acc, Head(ts).n))
+
 VARIABLES stmts,   \* finished statements: [lhs |-> var token, rhs |-> postfix]
           stack,   \* stack of finished sub-expressions (each a postfix sequence)
           leaves, nodes,   \* budget used by the statement under construction
           used,    \* highest name id used so far (canonical naming: a fresh name is used+1)
+          kinds,   \* name id -> kind it has been used with so far ("" = not yet used; "d" = defined by an equation)
+          terms, nameseq,   \* set once when the program is finished: its term list and its names in order of first
+                            \* appearance (TLC re-evaluates state-dependent definitions on every use; these two are used everywhere)
           phase
-vars == <<stmts, stack, leaves, nodes, used, phase>>
+vars == <<stmts, stack, leaves, nodes, used, kinds, terms, nameseq, phase>>
 
-Init == stmts = <<>> /\ stack = <<>> /\ leaves = 0 /\ nodes = 0 /\ used = 0 /\ phase = "build"
+Init == stmts = <<>> /\ stack = <<>> /\ leaves = 0 /\ nodes = 0 /\ used = 0 /\ phase = "build" /\ kinds = [n \in 1..MaxNames |-> ""] /\ terms = <<>> /\ nameseq = <<>>
 
 Top     == stack[Len(stack)]
 Pop(j)  == SubSeq(stack, 1, Len(stack) - j)
@@ -53,46 +66,51 @@ Building == phase = "build" /\ Len(stmts) < MaxStmts
 PushVar(kind, name, idx) ==
   /\ Building /\ leaves < MaxLeaves /\ nodes + 1 + Len(stack) <= MaxNodes
   /\ name <= used + 1 /\ name <= MaxNames
+  /\ (NoReject => (kinds[name] = "" \/ kinds[name] = kind \/ (kinds[name] = "d" /\ kind = "v")))
+  /\ kinds' = IF kinds[name] = "" THEN [kinds EXCEPT ![name] = kind] ELSE kinds
   /\ stack' = Append(stack, <<Var(kind, name, idx)>>)
   /\ leaves' = leaves + 1 /\ nodes' = nodes + 1 /\ used' = IF name > used THEN name ELSE used
-  /\ UNCHANGED <<stmts, phase>>
+  /\ UNCHANGED <<stmts, terms, nameseq, phase>>
 
 PushNum(lit) ==
   /\ Building /\ leaves < MaxLeaves /\ nodes + 1 + Len(stack) <= MaxNodes
   /\ stack' = Append(stack, <<Tok("num", lit, 0, 0)>>)
   /\ leaves' = leaves + 1 /\ nodes' = nodes + 1
-  /\ UNCHANGED <<stmts, used, phase>>
+  /\ UNCHANGED <<stmts, used, kinds, terms, nameseq, phase>>
 
 Unary(tok) ==
   /\ Building /\ stack # <<>> /\ Room(1)
   /\ Top[Len(Top)].t # tok.t                 \* no immediate repetition (-(-x)), ((x)) adds nothing new
   /\ stack' = Append(Pop(1), Append(Top, tok))
   /\ nodes' = nodes + 1
-  /\ UNCHANGED <<stmts, leaves, used, phase>>
+  /\ UNCHANGED <<stmts, leaves, used, kinds, terms, nameseq, phase>>
 
 Binary(tok) ==
   /\ Building /\ Len(stack) >= 2 /\ nodes + 1 + (Len(stack) - 2) <= MaxNodes
   /\ stack' = Append(Pop(2), stack[Len(stack) - 1] \o Top \o <<tok>>)
   /\ nodes' = nodes + 1
-  /\ UNCHANGED <<stmts, leaves, used, phase>>
+  /\ UNCHANGED <<stmts, leaves, used, kinds, terms, nameseq, phase>>
 
 Ternary ==
   /\ Building /\ UseCond /\ Len(stack) >= 3 /\ nodes + 1 + (Len(stack) - 3) <= MaxNodes
   /\ stack' = Append(Pop(3), stack[Len(stack) - 2] \o stack[Len(stack) - 1] \o Top \o <<Tok("cond", "", 0, 0)>>)
   /\ nodes' = nodes + 1
-  /\ UNCHANGED <<stmts, leaves, used, phase>>
+  /\ UNCHANGED <<stmts, leaves, used, kinds, terms, nameseq, phase>>
 
 CloseEq(name, idx) ==
   /\ Building /\ Len(stack) = 1
   /\ name <= used + 1 /\ name <= MaxNames
+  /\ (NoReject => kinds[name] \in {"", "v"})          \* not a parameter / error, not defined before
+  /\ kinds' = [kinds EXCEPT ![name] = "d"]
   /\ stmts' = Append(stmts, [lhs |-> Var("v", name, idx), rhs |-> stack[1]])
   /\ stack' = <<>> /\ leaves' = 0 /\ nodes' = 0 /\ used' = IF name > used THEN name ELSE used
-  /\ UNCHANGED phase
+  /\ UNCHANGED <<terms, nameseq, phase>>
 
 Finish ==
   /\ phase = "build" /\ stack = <<>> /\ stmts # <<>>
   /\ phase' = "done"
-  /\ UNCHANGED <<stmts, stack, leaves, nodes, used>>
+  /\ terms' = TermsOfStmts(stmts) /\ nameseq' = FirstSeen(TermsOfStmts(stmts), <<>>)
+  /\ UNCHANGED <<stmts, stack, leaves, nodes, used, kinds>>
 
 DoPushVar == \E kd \in Kinds, nm \in 1..MaxNames, ix \in Idxs : PushVar(kd, nm, ix)
 DoPushNum == \E l \in Nums : PushNum(l)
@@ -115,18 +133,8 @@ Done == phase = "done"
 (* Reference semantics of a finished program                               *)
 (***************************************************************************)
 N == Len(stmts)
-IsVar(x) == x.t = "var"
-TermsOf(s) == <<s.lhs>> \o SelectSeq(s.rhs, IsVar)         \* left-hand side first, then source order
-
-RECURSIVE TermsUpTo(_)
-TermsUpTo(i) == IF i = 0 THEN <<>> ELSE TermsUpTo(i - 1) \o TermsOf(stmts[i])
-AllTerms == TermsUpTo(N)
-
-(* distinct names in order of first appearance *)
-RECURSIVE FirstSeen(_, _)
-FirstSeen(ts, acc) == IF ts = <<>> THEN acc
-                      ELSE FirstSeen(Tail(ts), IF \E i \in 1..Len(acc) : acc[i] = Head(ts).n THEN acc ELSE Append(acc, Head(ts).n))
-NameSeq == FirstSeen(AllTerms, <<>>)
+AllTerms == terms
+NameSeq == nameseq
 Names   == {NameSeq[i] : i \in 1..Len(NameSeq)}
 
 KindsOf(n)  == {AllTerms[i].s : i \in {j \in 1..Len(AllTerms) : AllTerms[j].n = n}}
